@@ -35,6 +35,8 @@ def run(ctx):
     ctx.build()
     quick = ctx.tier == "quick"
     ctx.tlc("MC_UrlFilter", MC % (4 if quick else 6), timeout=900)
+    from props import c14
+    c14.pool_model(ctx, 2, 2 if quick else 3)      # the pooled request record: every field matching reads is rewritten
     trace = os.path.join(ctx.work, "hist-trace.ndjson")
     tmp = os.path.join(ctx.work, "files")
     os.makedirs(tmp, exist_ok=True)
